@@ -236,29 +236,53 @@ func oracleC08(v *View, vd *Verdict) {
 			for k, mc := range x.mqConnect {
 				upto := x.pkts[:x.mqAt[k]]
 				if cfg.Auth {
-					// the latest AUTH before this CONNECT must be a well-formed PLAIN one
-					var last *refsn.Pkt
+					// the exchange must contain a well-formed PLAIN AUTH whose credentials this CONNECT
+					// carries. (The gateway takes the AUTH that arrives in turn, right after CONNECT, and
+					// ignores later ones — duplicates, retransmissions; which one it takes is its business
+					// as long as the CONNECT carries the credentials of a well-formed one.)
+					nauth, nplain, match := 0, 0, false
+					var bad *refsn.Pkt
+					var firstUser string
 					for i := range upto {
-						if upto[i].Type == refsn.AUTH {
-							last = &upto[i]
+						if upto[i].Type != refsn.AUTH {
+							continue
+						}
+						nauth++
+						if upto[i].AuthMethod != "PLAIN" {
+							if bad == nil {
+								bad = &upto[i]
+							}
+							continue
+						}
+						u, pw, ok := plainOK(upto[i].Data)
+						if !ok {
+							if bad == nil {
+								bad = &upto[i]
+							}
+							continue
+						}
+						if nplain == 0 {
+							firstUser = u
+						}
+						nplain++
+						if mc.HasUser && mc.User == u && mc.HasPass && bytes.Equal(mc.Pass, pw) {
+							match = true
 						}
 					}
 					switch {
-					case last == nil:
+					case nauth == 0:
 						via := "CONNECT"
 						if len(upto) > 0 {
 							via = upto[len(upto)-1].Name()
 						}
 						vd.Add("C08", "C08/connect-without-auth/via="+via, "session %s: auth enabled, MQTT %s written after [%s] without any AUTH", sv.Name, mc.String(), exLabel(x))
-					case last.AuthMethod != "PLAIN":
-						vd.Add("C08", "C08/connect-after-unknown-method", "session %s: MQTT CONNECT written after AUTH method %q", sv.Name, last.AuthMethod)
+					case match:
+					case nplain > 0:
+						vd.Add("C08", "C08/credentials-differ-from-auth", "session %s: AUTH user %q, CONNECT %s user=%q", sv.Name, firstUser, mc.String(), mc.User)
+					case bad.AuthMethod != "PLAIN":
+						vd.Add("C08", "C08/connect-after-unknown-method", "session %s: MQTT CONNECT written after AUTH method %q", sv.Name, bad.AuthMethod)
 					default:
-						u, pw, ok := plainOK(last.Data)
-						if !ok {
-							vd.Add("C08", "C08/connect-after-malformed-plain", "session %s: MQTT CONNECT written after malformed PLAIN data %x", sv.Name, last.Data)
-						} else if !mc.HasUser || mc.User != u || !mc.HasPass || !bytes.Equal(mc.Pass, pw) {
-							vd.Add("C08", "C08/credentials-differ-from-auth", "session %s: AUTH user %q, CONNECT %s user=%q", sv.Name, u, mc.String(), mc.User)
-						}
+						vd.Add("C08", "C08/connect-after-malformed-plain", "session %s: MQTT CONNECT written after malformed PLAIN data %x", sv.Name, bad.Data)
 					}
 				} else {
 					wantUser := cfg.GwUser != nil
@@ -283,7 +307,12 @@ func oracleC08(v *View, vd *Verdict) {
 			// unknown method: CONNACK not-supported and no CONNECT afterwards
 			if cfg.Auth {
 				for i, p := range x.pkts {
-					if p.Type == refsn.AUTH && p.AuthMethod != "PLAIN" {
+					if p.Type != refsn.AUTH {
+						continue
+					}
+					// only the AUTH that arrives in turn (the first of the exchange) is judged; later ones
+					// are out of turn and ignored by the gateway
+					if p.AuthMethod != "PLAIN" {
 						got := false
 						for k, r := range x.g2c {
 							if x.g2cAt[k] >= i+1 && r.Type == refsn.CONNACK && r.RC == refsn.RCNotSupported {
@@ -298,8 +327,8 @@ func oracleC08(v *View, vd *Verdict) {
 								vd.Add("C08", "C08/connect-after-unknown-method", "session %s: MQTT CONNECT written after AUTH method %q", sv.Name, p.AuthMethod)
 							}
 						}
-						break
 					}
+					break
 				}
 			}
 		}
